@@ -1,6 +1,12 @@
 #!/bin/bash
-# run every registered quick check; print one line per property
+# run every registered check of one tier; print one line per property; exit 1 if any property reports a violation
+# (so that `tools/runall.sh quick && git commit ...` cannot commit a red state)
+rc=0
 for p in $(python3 -c "import json;print(' '.join(c['property_id'] for c in json.load(open('/verif/MANIFEST.json'))['checks']))"); do
-  /verif/bin/govc check --prop $p --tier ${1:-quick} "${@:2}" | tail -1
+  line=$(/verif/bin/govc check --prop $p --tier ${1:-quick} "${@:2}" | tail -1)
+  echo "$line"
+  case "$line" in *" 0 violations"*) ;; *) rc=1 ;; esac
 done
 python3 /verif/tools/mkstatus.py >/dev/null
+[ $rc -eq 0 ] && echo "ALL GREEN" || echo "RED: at least one property reports violations"
+exit $rc
